@@ -176,4 +176,34 @@ def sweep():
                                     "when the first has the explicit order %s" % (exprs, written_ranks(exprs[1]), lo),
                           "witness": {"cascade": exprs, "first_loop_order": lo,
                                       "explicit_default_loop_order": written_ranks(exprs[1])}})
+    # (c) one output written by two Einsums over different ranks, "no partitioning" spelled as an empty entry for it
+    # (d) two Einsums without a reduction whose written-out default loop orders are one list shared through a YAML alias
+    hist = [
+        ("same output over different ranks, empty partitioning entry",
+         {"A": "[M, K]", "B": "[K]", "C": "[M, J]", "D": "[J]", "Z": "[M]"}, ["Z[m] = A[m, k] * B[k]", "Z[m] = C[m, j] * D[j]"],
+         "mapping:\n", "mapping:\n  partitioning:\n    Z: {}\n"),
+        ("same output over different ranks, blank partitioning entry",
+         {"A": "[M, K]", "B": "[K]", "C": "[M, J]", "D": "[J]", "Z": "[M]"}, ["Z[m] = A[m, k] * B[k]", "Z[m] = C[m, j] * D[j]"],
+         "mapping:\n", "mapping:\n  partitioning:\n    Z:\n"),
+        ("written default loop orders shared through a YAML alias",
+         {"A": "[N, M]", "T": "[N, M]", "Z": "[N, M]"}, ["T[n, m] = A[n, m]", "Z[n, m] = T[n, m]"],
+         "mapping:\n", "mapping:\n  loop-order:\n    T: &nm [N, M]\n    Z: *nm\n"),
+    ]
+    for name, decl, exprs, m_omitted, m_explicit in hist:
+        base = "einsum:\n  declaration:\n" + "".join("    %s: %s\n" % kv for kv in decl.items())
+        base += "  expressions:\n" + "".join("    - %s\n" % e for e in exprs)
+        outs = []
+        for mm in (m_omitted, m_explicit):
+            try:
+                outs.append(str(HiFiber(Einsum.from_str(base), Mapping.from_str(base + mm))))
+            except Exception as e:      # noqa
+                outs.append("ERROR %s: %s" % (type(e).__name__, str(e)[:80]))
+        if outs[0].startswith("ERROR"):
+            continue
+        ev += 1
+        distinct.add(outs[0])
+        if outs[0] != outs[1]:
+            fails.append({"name": "bounded/omitted-vs-explicit-default",
+                          "detail": "%s (%s): the omitted mapping differs from the written default: %s" % (name, exprs, outs[1][:80]),
+                          "witness": {"case": name, "cascade": exprs, "explicit_mapping": m_explicit}})
     return ev, len(distinct), fails, samples
